@@ -7,8 +7,9 @@ from preview import Plan
 from vlib import Infra, write_ndjson
 
 KIND_OF_DEV = {"LostCancel": "lost-cancel", "LostKillAtExit": "survives-exit", "ExitBeforeKill": "survives-exit",
-               "StaleAfterShow": "stale-after-show"}
-FINDING_OF_KIND = {"lost-cancel": "F6", "survives-exit": "F6", "stale-after-show": "F18"}
+               "StaleAfterShow": "stale-after-show", "StaleRows": "stale-rows-after-loading", "LostOffsetReset": "lost-offset-reset"}
+FINDING_OF_KIND = {"lost-cancel": "F6", "survives-exit": "F6", "stale-after-show": "F18", "stale-rows-after-loading": "F24",
+                   "lost-offset-reset": "F27"}
 
 
 # ------------------------------------------------------------------ stimuli
@@ -19,17 +20,23 @@ def random_steps(rng, n, nitems):
     sels = ["toggle", "toggle+up", "toggle+down", "toggle+up+toggle", "clear-selection", "deselect", "select", "toggle-up"]
     pvs = ["refresh-preview", "toggle-preview", "toggle-preview+toggle-preview", "up+refresh-preview", "refresh-preview+up",
            "refresh-preview+refresh-preview", "toggle+refresh-preview"]
+    # scrolled states: the next result arrives at another offset / at the same one (there and back)
+    scrolls = ["preview-down", "preview-down", "preview-up", "preview-page-down", "preview-half-page-down", "preview-bottom", "preview-top",
+               "preview-down+preview-down", "preview-down+preview-up", "preview-page-down+preview-page-up", "preview-half-page-up",
+               "toggle-preview-wrap", "toggle-preview-wrap+toggle-preview-wrap", "preview-down+up", "up+preview-down", "preview-bottom+preview-top"]
     steps = []
     for _ in range(n):
         r = rng.random()
-        if r < 0.45:
+        if r < 0.40:
             body = rng.choice(moves)
-        elif r < 0.62:
+        elif r < 0.54:
             body = rng.choice(edits)
-        elif r < 0.8:
+        elif r < 0.68:
             body = rng.choice(sels)
-        elif r < 0.93:
+        elif r < 0.80:
             body = rng.choice(pvs)
+        elif r < 0.94:
+            body = rng.choice(scrolls)
         else:
             # another template (with / without {q}, {+}), then edits that keep the cursor on the same line: only the
             # version counter can tell the render loop that the preview must be refreshed
@@ -51,10 +58,23 @@ def random_steps(rng, n, nitems):
     return steps
 
 
-def random_plan(rng, sid):
+def talls_for(rng, h):
+    """How many lines the commands print at once, by item index: shorter than, equal to and taller than the window of h
+    rows, mixed so that a tall output is followed by a short one and by another tall one."""
+    short = [1, 2, max(1, h - 1), max(1, h // 2)]
+    tall = [h, h, h + 1, h + 4, 2 * h + 3]
+    k = rng.randint(2, 5)
+    out = [rng.choice(tall), rng.choice(short)] + [rng.choice(short + tall) for _ in range(k - 2)]
+    if rng.random() < 0.5:
+        rng.shuffle(out)
+    return out
+
+
+def random_plan(rng, sid, geoms):
     kinds = rng.choice([["endless"], ["instant"], ["endless", "instant", "slow", "mute", "incr", "incrlong", "ticking"],
                         ["endless", "instant", "mute"], ["slow", "incr", "mute", "instant"], ["ticking", "incrlong", "endless"],
-                        ["instant", "mute"], ["mute", "endless", "instant"]])
+                        ["instant", "mute"], ["mute", "endless", "instant"], ["instant", "slow"], ["pipe", "instant", "endless"],
+                        ["late", "instant", "execend", "slow"], ["instant", "incr", "slow"], ["pipe", "execend", "endless", "instant"]])
     nitems = rng.choice([40, 400, 3000])
     leave = rng.choice(["abort", "abort", "accept", "sigterm"])
     steps = random_steps(rng, rng.randint(5, 22), nitems)
@@ -63,55 +83,94 @@ def random_plan(rng, sid):
         # leave in the middle of things: right after a movement / as soon as the watcher got the cancel / at once
         steps += rng.choice([[{"post": "up"}], [{"post": "up"}, {"until": "pv.kill", "soft": True}], [{"post": "up"}, {"until": "pv.pick", "soft": True}],
                              [{"post": "toggle"}, {"sleep": 0.05}], []])
+    layout = rng.randrange(len(preview.LAYOUTS))
     return Plan(sid, rng.choice(sorted(preview.TEMPLATES)), kinds, nitems, steps, observe=observe, leave=leave, label="random",
-                lead=rng.choice([0, 0, 0, 0.35]))
+                lead=rng.choice([0, 0, 0, 0.35]), talls=talls_for(rng, geoms[layout][3]), layout=layout, wrap=rng.random() < 0.3,
+                suffix=rng.choice(["", "", "-" + "w" * rng.randint(8, 40)]))
 
 
-def directed_plans(sid0, reps):
+def directed_plans(sid0, reps, geoms, rng):
     """Process-level schedules for TLC's deviation counterexamples (MC_Preview_dev*.cfg): they widen the windows in
-    which the non-blocking cancel / kill finds the watcher outside its select."""
+    which the non-blocking cancel / kill finds the watcher outside its select; and the row-by-row scenarios: outputs
+    shorter than / equal to / taller than the window following each other at the same and at another scroll offset."""
     plans = []
     sid = sid0
+    nl = len(preview.LAYOUTS)
+    first = {"until": "pv.display", "n0": 0}
+    shown = {"until": "pv.display", "soft": True}
     for r in range(reps):
         # LostKillAtExit: cancel received, watcher sits in its previewCancelWait delay, the session ends
         plans.append(Plan(sid, "PA", ["endless"], 40, [{"until": "pv.start", "n0": 0}, {"post": "up"}, {"until": "pv.kill", "n0": 0}],
                           observe=False, leave=["abort", "accept", "sigterm"][r % 3], label="exit-during-cancel-wait", lead=1000)); sid += 1
         # LostCancel: movements until the previewer takes a request; the last movement falls between pick and the watcher's select
         plans.append(Plan(sid, "PA", ["endless"], 5000, [{"until": "pv.start", "n0": 0}, {"burst": "up", "until": "pv.pick"}],
-                          observe=True, leave="abort", label="move-while-starting")); sid += 1
+                          observe=True, leave="abort", label="move-while-starting", layout=r % nl, talls=[2, geoms[r % nl][3] + 2])); sid += 1
         # LostKillAtExit: the session ends while the first command is being started
         plans.append(Plan(sid, "PA", ["endless"], 40, [{"until": "pv.pick", "n0": 0}], observe=False, leave="abort", label="exit-while-starting")); sid += 1
         # LostCancel (older request taken between try-send and Set): two announcements back to back
-        plans.append(Plan(sid, "PB", ["endless"], 400, [{"until": "pv.start", "n0": 0}] + [{"post": "up+refresh-preview"}] * 6,
-                          observe=True, leave="sigterm", label="double-announce")); sid += 1
+        plans.append(Plan(sid, "PB", ["pipe"], 400, [{"until": "pv.start", "n0": 0}] + [{"post": "up+refresh-preview"}] * 6,
+                          observe=True, leave="sigterm", label="double-announce", layout=(r + 1) % nl, talls=[geoms[(r + 1) % nl][3], 1])); sid += 1
+        # ---- rows: every layout in turn (r-th repetition: layouts r, r + reps, ...)
+        for lay in range(r, nl, reps):
+            h = geoms[lay][3]
+            wrap = (lay + r) % 3 == 0
+            # a tall output, then a short one, then another tall one, all at offset 0; then back
+            plans.append(Plan(sid, "PA" if wrap else ["PB", "PA", "PD", "PC"][lay % 4], ["instant"], 40,
+                              [first, {"post": "up"}, shown, {"post": "up"}, shown, {"post": "up"}, shown, {"post": "down"}],
+                              label="tall-short-tall", talls=[h + 3, 1, 2 * h + 1, h], layout=lay, wrap=wrap,
+                              suffix="-" + "w" * 36 if wrap else ["", "-" + "w" * 14, "-" + "w" * 33][(lay + r) % 3])); sid += 1
+            # the same with commands of every duration (children of the shell: command lists, loops, a pipeline), back to back
+            plans.append(Plan(sid, ["PA", "PD", "PB"][lay % 3], ["endless", "slow", "pipe", "incr", "instant"], 40,
+                              [first, {"post": "up"}, {"until": "pv.start", "soft": True}, {"post": "up"}, {"sleep": 0.25}, {"post": "up"},
+                               {"post": "up"}, shown, {"post": "up+up"}],
+                              leave=["abort", "accept", "sigterm"][lay % 3], label="tall-short-tall-slow", talls=[h, 2, h + 5, 1, h + 1, h - 1], layout=lay, wrap=wrap)); sid += 1
+            # scrolled: the next result arrives while the window shows another offset; there and back: at the same one
+            plans.append(Plan(sid, "PB", ["instant", "slow"], 40,
+                              [first, {"post": "preview-down"}, {"post": "preview-down"}, {"post": "up"}, shown, {"post": "preview-page-down"},
+                               {"post": "preview-up"}, {"post": "up"}, shown, {"post": "preview-down+preview-up"}, {"post": "up"}, shown,
+                               {"post": "preview-bottom"}, {"post": "down"}],
+                              label="scrolled", talls=[2 * h + 3, h + 2, h, h + 1], layout=lay, wrap=False)); sid += 1
+            plans.append(Plan(sid, "PD", ["ticking", "instant", "incrlong"], 40,
+                              [first, {"post": "preview-half-page-down"}, {"post": "up"}, shown, {"post": "up"}, shown, {"sleep": 0.4},
+                               {"post": "preview-down"}] + ([{"post": "toggle-preview-wrap"}] if lay % 2 else []),
+                              leave="abort", label="scrolled-running", talls=[h + 1, 3, h - 1], layout=lay, wrap=(lay % 2 == 0),
+                              suffix=["-" + "w" * 25, ""][(lay // 2) % 2])); sid += 1
+        # StaleRows (TLC's counterexample MC_Preview_dev_rows.cfg replayed): a tall output on display, the next command is silent
+        # for longer than previewDelayed ("Loading .."), meanwhile the window is repainted at the same offset
+        lay = (2 * r) % nl
+        h = geoms[lay][3]
+        plans.append(Plan(sid, "PB", ["late"], 40, [first, {"post": "up"}, {"until": "pv.start", "n0": 1}, {"sleep": 0.62},
+                                                    {"post": ["toggle-preview-wrap", "preview-down+preview-up", "preview-down"][r % 3]}]
+                          + ([{"sleep": 0.02}, {"post": "preview-up"}] if r % 3 == 2 else []),
+                          label="repaint-while-loading", talls=[h + 2, h + 4], layout=lay)); sid += 1
         # StaleAfterShow: window hidden, then move away + show + move back within one iteration of the action loop
         if r == 0:
             plans.append(Plan(sid, "PB", ["instant"], 40, [{"until": "pv.display", "n0": 0}, {"post": "toggle-preview"}, {"sleep": 0.2},
-                                                           {"post": "up+toggle-preview+down"}], observe=True, leave="abort", label="show-and-move-back")); sid += 1
+                                                           {"post": "up+toggle-preview+down"}], observe=True, leave="abort", label="show-and-move-back",
+                              talls=[geoms[0][3] + 1, 2])); sid += 1
         if r == 0:
-            first = {"until": "pv.display", "n0": 0}
             # the right command runs last but prints nothing / there is nothing to preview: the window must be empty
-            plans.append(Plan(sid, "PB", ["instant", "mute"], 40, [first, {"post": "up"}], label="mute-command")); sid += 1
+            plans.append(Plan(sid, "PB", ["instant", "mute"], 40, [first, {"post": "up"}], label="mute-command", talls=[geoms[0][3] + 2])); sid += 1
             plans.append(Plan(sid, "PA", ["mute", "instant"], 40, [first, {"post": "up"}, {"until": "pv.display", "soft": True}, {"post": "down"}],
-                              label="mute-command")); sid += 1
-            plans.append(Plan(sid, "PD", ["instant"], 40, [first, {"post": "change-query(zz)"}], label="no-match-blank")); sid += 1
-            plans.append(Plan(sid, "PB", ["slow"], 40, [first, {"post": "up+change-query(zz)"}], label="no-match-blank")); sid += 1
+                              label="mute-command", talls=[geoms[1][3], 3], layout=1)); sid += 1
+            plans.append(Plan(sid, "PD", ["instant"], 40, [first, {"post": "change-query(zz)"}], label="no-match-blank", talls=[geoms[2][3] + 1], layout=2)); sid += 1
+            plans.append(Plan(sid, "PB", ["slow"], 40, [first, {"post": "up+change-query(zz)"}], label="no-match-blank", talls=[geoms[3][3]], layout=3)); sid += 1
             # template without {q} -> template with {q}, then query edits that leave the same line under the cursor
             plans.append(Plan(sid, "PB", ["instant"], 40, [first, {"post": "change-preview:PA"}, {"until": "pv.display", "soft": True},
-                                                           {"post": "put(a)"}], label="query-after-change-preview")); sid += 1
+                                                           {"post": "put(a)"}], label="query-after-change-preview", talls=[geoms[4][3] + 1, 2], layout=4)); sid += 1
             plans.append(Plan(sid, "PD", ["endless"], 40, [first, {"post": "change-preview:PC"}, {"until": "pv.display", "soft": True},
                                                            {"post": "up+change-query(b)+down"}, {"sleep": 0.3}, {"post": "put(1)"}],
                               leave="sigterm", label="query-after-change-preview")); sid += 1
             # template without {+} -> template with {+}, then toggles that leave the cursor where it is; and back
             plans.append(Plan(sid, "PD", ["instant"], 40, [first, {"post": "change-preview:PB"}, {"until": "pv.display", "soft": True},
                                                            {"post": "toggle"}, {"sleep": 0.2}, {"post": "up+toggle+down"}],
-                              label="toggle-after-change-preview")); sid += 1
+                              label="toggle-after-change-preview", talls=[geoms[5][3], 1], layout=5)); sid += 1
             plans.append(Plan(sid, "PA", ["instant"], 40, [first, {"post": "put(a)"}, {"post": "change-preview:PD"}, {"until": "pv.display", "soft": True},
                                                            {"post": "put(b)"}, {"post": "change-preview:PC"}, {"post": "backward-delete-char"}],
-                              leave="accept", label="query-after-change-preview")); sid += 1
+                              leave="accept", label="query-after-change-preview", talls=[3, geoms[0][3] + 1])); sid += 1
         # no deviation expected: leave while a never-ending command runs and its watcher is in the select
         plans.append(Plan(sid, "PC", ["ticking"], 40, [{"until": "pv.display", "n0": 0}], observe=True, leave=["sigterm", "accept", "abort"][r % 3],
-                          label="exit-while-running")); sid += 1
+                          label="exit-while-running", talls=[2])); sid += 1
     return plans
 
 
@@ -168,11 +227,19 @@ def judge_sessions(ctx, results, label):
                             what += "preview process group %s still alive after fzf exited (%s)" % (s_evs[-1]["survivors"], s_evs[-1]["how"])
                         elif kind == "stale-after-show":
                             what += ("at quiescence the cursor is on item %s but the window shows %s: the request announced by toggle-preview "
-                                     "was served and the render loop announced nothing after it" % (q[-1]["cur"], q[-1]["pane"]) if q else "stale preview")
+                                     "was served and the render loop announced nothing after it" % (q[-1]["cur"], q[-1]["rows"][:3]) if q else "stale preview")
+                        elif kind == "stale-rows-after-loading":
+                            what += ("at quiescence the cursor is on item %s, the command for it ran last and fzf took its output over, but only the "
+                                     "FIRST row of the window was repainted - the rows below still show an older preview: %s (reqPreviewDelayed had "
+                                     "put the new version into t.previewer.version while the old lines were repainted, so the result counted as "
+                                     "`unchanged` in printPreview)" % (q[-1]["cur"], q[-1]["rows"][:4]) if q else "stale rows")
+                        elif kind == "lost-offset-reset":
+                            what += ("the first result of a command did not reset the scroll offset (overwritten in the one-slot request box by a "
+                                     "later result of the same command): window shows %s" % (q[-1]["rows"][:3],) if q else "stale offset")
                         else:
                             what += ("at quiescence the cursor is on item %s (query %r, selection %s), the window shows %s, the never-ending "
                                      "command of an older request still runs and the request for the current state was never taken" % (
-                                         q[-1]["cur"], q[-1]["q"], q[-1]["sel"], q[-1]["pane"]) if q else "stale preview")
+                                         q[-1]["cur"], q[-1]["q"], q[-1]["sel"], q[-1]["rows"][:3]) if q else "stale preview")
                         ctx.violation(what, {"plan": plan.to_json(), "events": s_evs, "deviations": devs, "kf": {"finding": FINDING_OF_KIND[kind], "kind": kind}})
             elif rejected is None:
                 rejected = (a, b, sid)
@@ -183,32 +250,62 @@ def judge_sessions(ctx, results, label):
         bad = s_evs[acc - a]
         prev = s_evs[max(0, acc - a - 5):acc - a]
         short = lambda e: {k: v for k, v in e.items() if k not in ("log", "texts", "tmpls")}
-        ctx.violation("session %d (%s): spec rejects event %d %s (after %s)" % (
-            sid, plan.label, acc - a, json.dumps(short(bad))[:700], json.dumps([short(e) for e in prev])[:900]),
+        ctx.violation("session %d (%s, window %s%s, %s lines by item): spec rejects event %d %s (after %s)" % (
+            sid, plan.label, preview.LAYOUTS[plan.layout], ",wrap" if plan.wrap else "", plan.talls, acc - a,
+            json.dumps(short(bad))[:900], json.dumps([short(e) for e in prev])[:700]),
             {"plan": plan.to_json(), "events": s_evs, "rejected_at": acc - a})
         pending = [x for x in pending if x > sid]
     return accepted_clean
 
 
-def run(ctx):
-    # (1) the design: all interleavings of <= 2 (quick) / 4 (thorough) user actions with every previewer / watcher /
-    #     command step, safety + liveness; then the deviation configs, whose counterexamples are kept
-    ctx.mc("FzfPreview", "MC_Preview_quick.cfg", timeout=900, workers=6, coverage=True)
+DEV_CFGS = (("MC_Preview_dev.cfg", "ConvergenceLostCancel"), ("MC_Preview_dev_exit.cfg", "ExitCleanLostKill"),
+            ("MC_Preview_dev_show.cfg", "ConvergenceStaleAfterShow"), ("MC_Preview_dev_rows.cfg", "ConvergenceStaleRows"),
+            ("MC_Preview_dev_offset.cfg", "ConvergenceLostOffsetReset"))
+
+
+def model_checking(ctx):
+    """(1) the design: all interleavings of <= 2 (quick) / 3 (thorough) user actions with every previewer / watcher /
+    command / render-loop step, safety + liveness on one-line outputs (MC_Preview*.cfg), safety on outputs shorter than,
+    equal to and taller than the window with scrolling, re-wrapping and "Loading .." (MC_Preview_rows*.cfg); then the
+    deviation configs, whose counterexamples are kept.  The TLC runs go on side by side (and beside the sessions)."""
+    jobs = [("MC_Preview_cov.cfg", dict(workers=2, coverage=True, timeout=1500)),           # every action taken (1 user action)
+            ("MC_Preview_quick.cfg", dict(workers=4, timeout=1500)),
+            ("MC_Preview_rows_quick.cfg", dict(workers=ctx.pick(6, 4), timeout=1500))]
     if not ctx.quick:
-        ctx.mc("FzfPreview", "MC_Preview.cfg", timeout=3000, workers=8)          # 4 user actions: ~3.9 M states, 5-8 min
-        ctx.mc("FzfPreview", "MC_Preview_noq.cfg", timeout=1700, workers=8)
-    for label, res in ctx.cov["action_coverage"].items():
-        zero = [a for a, n in res.items() if n == 0 and a.split(".")[1] not in ("Init",)]
-        if zero:
-            raise Infra("actions never taken in %s: %s" % (label, zero))
-    for cfg, inv in (("MC_Preview_dev.cfg", "ConvergenceLostCancel"), ("MC_Preview_dev_exit.cfg", "ExitCleanLostKill"),
-                     ("MC_Preview_dev_show.cfg", "ConvergenceStaleAfterShow")):
-        res = ctx.tlc("FzfPreview", cfg, workers=1, timeout=600, expect_ok=False, args=["-difftrace"])
-        if res.code != 12 or not any(inv in e for e in res.errors):
-            raise Infra("%s: expected a counterexample to %s (exit 12), got exit %d\n%s" % (cfg, inv, res.code, res.tail(20)))
-        with open(res.outp, errors="replace") as fh:
-            acts = re.findall(r"^State \d+: <(\w+) line", fh.read(), re.M)
-        ctx.cov.setdefault("deviation_counterexamples", {})[inv] = acts
+        jobs += [("MC_Preview.cfg", dict(workers=6, timeout=5400)),            # 3 user actions, one-line outputs, liveness: 5.3 M states
+                 ("MC_Preview_rows.cfg", dict(workers=5, timeout=5400)),       # 3 user actions, rows + scrolling (finite, no {q}): 12.5 M states
+                 ("MC_Preview_show4.cfg", dict(workers=5, timeout=5400)),      # 4 user actions (toggle-preview chains, finding F18): 21 M states
+                 ("MC_Preview_rows_fixed.cfg", dict(workers=2, timeout=5400))] # the repair of F24 at design level: StaleRows impossible
+    ex = ThreadPoolExecutor(max_workers=len(jobs) + len(DEV_CFGS))
+    mcs = [(cfg, ex.submit(ctx.tlc, "FzfPreview", cfg, **kw)) for cfg, kw in jobs]
+    devs = [(cfg, inv, ex.submit(ctx.tlc, "FzfPreview", cfg, workers=1, timeout=900, expect_ok=False, args=["-difftrace"])) for cfg, inv in DEV_CFGS]
+    ex.shutdown(wait=False)
+
+    def finish():
+        for cfg, fut in mcs:
+            res = fut.result()
+            ctx.cov["states"] += res.distinct
+            ctx.cov["transitions"] += res.generated
+            if res.action_cov:
+                ctx.cov["action_coverage"][res.label] = res.action_cov
+        if not ctx.cov["action_coverage"]:
+            raise Infra("no action coverage reported")
+        for label, res in ctx.cov["action_coverage"].items():
+            zero = [a for a, n in res.items() if n == 0 and a.split(".")[1] not in ("Init",)]
+            if zero:
+                raise Infra("actions never taken in %s: %s" % (label, zero))
+        for cfg, inv, fut in devs:
+            res = fut.result()
+            if res.code != 12 or not any(inv in e for e in res.errors):
+                raise Infra("%s: expected a counterexample to %s (exit 12), got exit %d\n%s" % (cfg, inv, res.code, res.tail(20)))
+            with open(res.outp, errors="replace") as fh:
+                acts = re.findall(r"^State \d+: <(\w+)[ (]", fh.read(), re.M)
+            ctx.cov.setdefault("deviation_counterexamples", {})[inv] = acts
+    return finish
+
+
+def run(ctx):
+    finish_mc = model_checking(ctx)
 
     if ctx.replay:
         rp = json.load(open(ctx.replay))["case"]
@@ -220,32 +317,37 @@ def run(ctx):
             ctx.violation("recorded session is again explained only by deviations %s" % flags, rp)
         ctx.cov["distinct_nontrivial"] = 1
         ctx.cov["evaluations"] = len(rp["events"])
+        finish_mc()
         return "model_checking"
 
     # (2) J: recorded sessions of the real binary
     fzf = ctx.build_fzf()
     rng = ctx.rng
-    plans = directed_plans(1000, ctx.pick(2, 8))
-    plans += [random_plan(rng, sid) for sid in range(ctx.pick(36, 500))]
+    with ThreadPoolExecutor(max_workers=4) as ex:           # where each layout puts the preview window (measured on the real binary)
+        geoms = list(ex.map(lambda lay: preview.calibrate(ctx, fzf, lay), preview.LAYOUTS))
+    ctx.cov["window_geometry"] = {lay: {"x": g[0], "y": g[1], "W": g[2], "H": g[3]} for lay, g in zip(preview.LAYOUTS, geoms)}
+    plans = directed_plans(1000, ctx.pick(2, 8), geoms, rng)
+    plans += [random_plan(rng, sid, geoms) for sid in range(ctx.pick(30, 500))]
     for p in plans:                      # template tags -> commands (the driver knows the commands it builds)
         for st in p.steps:
             if "post" in st and st["post"].startswith("change-preview:"):
-                st["post"] = "change-preview:" + preview.command(st["post"].split(":", 1)[1], p.kinds, p.lead)
+                st["post"] = "change-preview:" + preview.command(st["post"].split(":", 1)[1], p.kinds, p.lead, p.talls)
 
     retried = []
 
     def do(plan):
         try:
-            return plan.sid, plan, preview.run_session(ctx, fzf, plan)
+            return plan.sid, plan, preview.run_session(ctx, fzf, plan, geoms)
         except preview.Unsettled:
             # not reproduced = noise of the machine; reproduced = recorded as it is and judged by the specification
             retried.append(plan.sid)
-            return plan.sid, plan, preview.run_session(ctx, fzf, plan, record_unsettled=True)
+            return plan.sid, plan, preview.run_session(ctx, fzf, plan, geoms, record_unsettled=True)
     results = {}
-    with ThreadPoolExecutor(max_workers=ctx.pick(5, 6)) as ex:
+    with ThreadPoolExecutor(max_workers=8) as ex:
         for sid, plan, evs in ex.map(do, plans):
             results[sid] = (plan, evs)
     clean = judge_sessions(ctx, results, "all")
+    finish_mc()
 
     allev = [e for sid in results for e in results[sid][1]]
     kinds = {}
@@ -263,27 +365,44 @@ def run(ctx):
     for e in allev:
         if e["ev"] == "quiet":
             ctx.cov["quiescent_states"][e["state"]] = ctx.cov["quiescent_states"].get(e["state"], 0) + 1
-    ctx.cov["quiescent_with_empty_window"] = sum(1 for e in allev if e["ev"] == "quiet" and e["visible"] and e["pane"] == [])
+    quiets = [e for e in allev if e["ev"] == "quiet" and e["visible"]]
+    ctx.cov["quiescent_with_empty_window"] = sum(1 for e in quiets if not any(e["rows"]))
+    ctx.cov["rows_compared"] = sum(len(e["rows"]) for e in quiets)
+    ctx.cov["quiescent_windows"] = {"full": sum(1 for e in quiets if e["rows"] and all(e["rows"])),
+                                    "partly_filled": sum(1 for e in quiets if any(e["rows"]) and not all(e["rows"])),
+                                    "scrolled": sum(1 for e in quiets if e["rows"] and re.search(r"\b([2-9]|\d\d+)/\d+$", e["rows"][0])),
+                                    "with_wrapped_rows": sum(1 for e in quiets if any(r.startswith("> ") for r in e["rows"]))}
+    ctx.cov["scroll_and_wrap_actions"] = sum(1 for e in allev if e["ev"] in ("scroll", "tw"))
+    ctx.cov["layouts"] = sorted({results[sid][0].layout for sid in results})
     ctx.cov["change_preview_posts"] = sum(1 for sid in results for st in results[sid][0].steps if st.get("post", "").startswith("change-preview:"))
     ctx.cov["exits"] = {}
     for e in allev:
         if e["ev"] == "exit":
             k = e["how"] + ("/survivors" if e["survivors"] else "/clean")
             ctx.cov["exits"][k] = ctx.cov["exits"].get(k, 0) + 1
-    distinct = {json.dumps([e["tag"], e["cur"] >= 0, e["q"] != "", len(e["sel"]), e["visible"], e["state"], len(e["procs"])])
+    distinct = {json.dumps([e["tag"], e["cur"] >= 0, e["q"] != "", len(e["sel"]), e["visible"], e["state"], len(e["procs"]),
+                            sum(1 for r in e["rows"] if r), bool(e["rows"]) and "/" in e["rows"][0][-8:]])
                 for e in allev if e["ev"] == "quiet"}
     distinct |= {json.dumps([results[sid][0].label, results[sid][1][-1]["how"], bool(results[sid][1][-1]["survivors"])]) for sid in results}
     ctx.cov["distinct_nontrivial"] = len(distinct)
-    ctx.cov["rule"] = ("tmux-driven sessions of the real binary with preview commands that log their own invocation and hold a session lock "
-                       "(instant / slow / incremental / never-ending, by item index); seeded histories of movements, query edits, toggles, "
-                       "toggle-preview, refresh-preview and change-preview POSTed back to back, after seeded pauses, or as soon as a previewer "
-                       "event (pick / start / kill / display / exit) is logged; the pv.* hook trace plus LOG, /proc scan, GET / and the captured "
-                       "window at quiescence and the /proc scan after abort / accept / SIGTERM are validated by Trace_Preview; non-trivial = "
-                       "distinct (template, has item, has query, selection size, window visible, previewer state, live commands) quiescence "
-                       "observations + distinct (scenario, way of leaving, survivors) endings")
+    ctx.cov["rule"] = ("tmux-driven sessions of the real binary with preview commands that log their own invocation, hold a session lock and "
+                       "print multi-line outputs naming the item on every line (shorter than / equal to / taller than the window, by item "
+                       "index; instant / slow / late / incremental / never-ending incl. command lists and pipelines whose long-running part "
+                       "is a child of the shell, by item index); preview window down / up / left / right, with and without border, wrap on / "
+                       "off; seeded histories of movements, query edits, toggles, toggle-preview, refresh-preview, change-preview, preview "
+                       "scrolling and toggle-preview-wrap POSTed back to back, after seeded pauses, or as soon as a previewer event (pick / "
+                       "start / kill / display / exit) is logged; the pv.* hook trace plus LOG, /proc scan, GET / and EVERY ROW of the captured "
+                       "preview window at quiescence and the /proc scan after abort / accept / SIGTERM are validated by Trace_Preview; "
+                       "non-trivial = distinct (template, has item, has query, selection size, window visible, previewer state, live "
+                       "commands, rows filled, scroll indicator) quiescence observations + distinct (scenario, way of leaving, survivors) endings")
     for sid in sorted(results)[:3]:
         ctx.sample([{k: v for k, v in e.items() if k not in ("texts", "tmpls", "log")} for e in results[sid][1] if e["ev"] in ("enq", "pick", "quiet", "exit")][:6])
     ctx.assumptions += ["a terminal hang-up (SIGHUP, which fzf does not handle) and SIGKILL of fzf are not ways of leaving the property speaks about",
                         "placeholder quoting itself is C12's subject: queries and items here are plain words",
-                        "MC: instant and slow commands are the same in an untimed model (finite vs never-ending)"]
+                        "MC: instant and slow commands are the same in an untimed model (finite vs never-ending)",
+                        "the position and size of the preview window on the screen are measured on the real binary (a ruler preview per layout), "
+                        "not specified: C20 is about what the window shows; texts are ASCII without tabs (one cell per character)",
+                        "the spinner and the scroll indicator drawn over the right end of the first row are code-derived; the 'Loading ..' "
+                        "message is not observed (no quiescent state shows it)",
+                        "no resize / change-preview-window during a session; --preview-window follow, header lines (~N) and scroll specs (+N) not used"]
     return "model_checking"
